@@ -142,6 +142,21 @@ class MExtraSub(MExtra):
     mapper_method = "map_m_extra_sub"
 
 
+class MAliasTag(MAlias):
+    """third level: legacy WITH an extra init arg below an undecorated class without one below a
+    decorated class (the shape of a user class below the library's MultiVectorVariable)"""
+    init_arg_names = ("u", "v", "t")
+
+    def __init__(self, u, v, t):
+        MAlias.__init__(self, u, v)
+        self.t = t
+
+    def __getinitargs__(self):
+        return (self.u, self.v, self.t)
+
+    mapper_method = "map_m_alias_tag"
+
+
 class MVar(p.Variable):
     """legacy subclass of a STOCK class with an extra init arg"""
     init_arg_names = ("name", "tag")
@@ -183,7 +198,8 @@ class SubRat(_rational()):
 
 
 USER_CLASSES = {c.__name__: c for c in (
-    DBase, DMid, DLeaf, DTwin, DOpts, DInit, LBase, LMid, LLeaf, MAlias, MDeep, MExtra, MExtraSub, MVar,
+    DBase, DMid, DLeaf, DTwin, DOpts, DInit, LBase, LMid, LLeaf, MAlias, MDeep, MAliasTag, MExtra,
+    MExtraSub, MVar,
     MSum, SubPoly, SubRat)}
 USER_CLASSES.update(K.USER_CLASSES)
 
